@@ -25,12 +25,28 @@ def check_pred(ctx, lines, impl):
             ctx.violation("batch map-to-field differs from single", {"case": l, "impl": o})
         if "raw:0.0.0" in l:
             continue
+        bs = parts["B"]
+
+        def ratio(k):
+            """x/y in Fp recomputed from the compressed bytes (independent of the implementation's map)"""
+            x = int(bs[k], 16)
+            if x == 0:
+                return 0
+            y = E.y_from_x(x)
+            y = y if E.lex_largest(y) else (-y) % E.P
+            return x * E.inv(y) % E.P
         for i in range(len(mp)):
             for j in range(len(mp)):
-                if (eq[i][j] == "1") != (mp[i] == mp[j]):
-                    ctx.violation("Equal(%d,%d)=%s but map values %s" % (i, j, eq[i][j], "equal" if mp[i] == mp[j] else "differ"),
-                                  {"case": l, "impl": o})
+                if eq[i][j] == "1" and mp[i] != mp[j]:
+                    ctx.violation("Equal(%d,%d) but map values differ" % (i, j), {"case": l, "impl": o})
                     return
+                if eq[i][j] == "0" and mp[i] == mp[j]:
+                    # the reduction Fp -> Fr is not injective: equal map values of non-Equal elements are
+                    # legitimate exactly when their x/y differ in Fp (and agree modulo r)
+                    if ratio(i) == ratio(j):
+                        ctx.violation("elements %d,%d are not Equal but have the same x/y" % (i, j), {"case": l, "impl": o})
+                        return
+                    ctx.dist["non-Equal elements with x/y congruent mod r (legitimate collision)"] += 1
 
 
 def big_batch(rng, n):
@@ -41,9 +57,48 @@ def big_batch(rng, n):
     return "gs " + " ".join(toks)
 
 
+def ratio_targets(rng):
+    """values of x/y near every boundary of the reduction Fp -> Fr and of the byte/limb encodings"""
+    R, P = E.R, E.P
+    t = []
+    for m in (1, 2, 3, 4):
+        t += [m * R + k for k in range(-12, 13)]
+    t += [P - k for k in range(1, 30)] + list(range(1, 30))
+    for e in (64, 128, 192, 200, 247, 248, 252, 253, 254):
+        t += [2 ** e + k for k in range(-6, 7)]
+    t += [(4 * R + P) // 2 + k for k in range(8)]
+    return [v % P for v in t if 0 < v % P]
+
+
+def targeted_points(rng, want):
+    """valid elements whose x/y hits the chosen values (about one candidate in five has a solution)"""
+    out = []
+    cands = ratio_targets(rng)
+    rng.shuffle(cands)
+    # the top window [4r, p) first: it is tiny, so it is only ever reached on purpose
+    top = [v for v in cands if v >= 4 * E.R]
+    for lam in top[:60] + cands:
+        pt = E.point_with_ratio(lam)
+        if pt is not None:
+            out.append((lam, pt))
+        if len(out) >= want:
+            break
+    return out
+
+
 def run(ctx):
     rng = ctx.rng
     lines, classes = [], []
+    tp = targeted_points(rng, ctx.n(24, 300))
+    for k in range(0, len(tp), 4):
+        grp = tp[k:k + 4]
+        toks = []
+        for lam, pt in grp:
+            toks.append("raw:" + gsgen.rep_tok(rng, pt))
+            toks.append("raw:" + gsgen.rep_tok(rng, pt))
+        toks += ["id", "add:0:2", "sub:%d:2" % (len(toks) + 1)]      # (P+Q)-Q: another representation of P
+        lines.append("gs " + " ".join(toks))
+        classes.append("x/y at a reduction boundary (%s)" % ("top window [4r,p)" if any(l >= 4 * E.R for l, _ in grp) else "other"))
     for i in range(ctx.n(250, 20000)):
         l, _ = gsgen.gen_script(rng, rng.randrange(0, 25))
         lines.append(l)
